@@ -159,6 +159,9 @@ type rtLog struct {
 func runRouterConc(c *ctx) error {
 	r := c.rng
 	nrun := c.pick(60, 1500)
+	// a router that has been alive for a while when it is used (created now, used at the end of the engine)
+	aged := server.NewEventRouter[int, int](5)
+	agedAt := time.Now()
 	stuck := 0 // runs in which a reader had to be given up (each costs a timeout per reader)
 	for run := 0; run < nrun && stuck < 3; run++ {
 		router := server.NewEventRouter[int, int](5)
@@ -310,6 +313,50 @@ func runRouterConc(c *ctx) error {
 			c.res.Sample(reqs[:min(len(reqs), 30)])
 		}
 	}
-	c.res.Rule = "3..6 goroutines x 40 random subscribe/unsubscribe/publish operations over 3 identifiers with randomised pauses, every subscriber read by its own goroutine; the order of critical sections recorded by the verif router hook is replayed through the Lean model and every subscriber's received sequence compared; a class is (workers, subscription count bucket)"
+	// ---- the aged router: more than ten seconds after its creation a subscriber falls briefly behind
+	// (its buffer is full when the next event is published, it resumes reading a moment later). It
+	// keeps reading, so it must get every event, in order.
+	if stuck == 0 {
+		if d := 10300*time.Millisecond - time.Since(agedAt); d > 0 {
+			time.Sleep(d)
+		}
+		ch := aged.Subscribe(7)
+		var got []int
+		fin := make(chan struct{})
+		go func() {
+			time.Sleep(300 * time.Millisecond)
+			for v := range ch {
+				got = append(got, v)
+			}
+			close(fin)
+		}()
+		pubDone := make(chan struct{})
+		go func() {
+			for ev := 1; ev <= 8; ev++ {
+				aged.Publish(7, ev)
+			}
+			close(pubDone)
+		}()
+		select {
+		case <-pubDone:
+		case <-time.After(15 * time.Second):
+		}
+		time.Sleep(100 * time.Millisecond)
+		aged.Unsubscribe(ch)
+		select {
+		case <-fin:
+		case <-time.After(5 * time.Second):
+		}
+		c.res.Eval()
+		c.res.Count("aged-router")
+		c.res.Class("aged-router")
+		if intsText(got) != intsText([]int{1, 2, 3, 4, 5, 6, 7, 8}) {
+			c.res.Add(hx.Finding{Kind: "propfail", Engine: "routerconc", Signature: "router-delivery-aged",
+				Case: "a router created 10.3 s earlier; Subscribe(7) with buffer 5; the reader starts 300 ms after 8 events are published in a row, then reads without pause",
+				Impl: intsText(got), Spec: "1,2,3,4,5,6,7,8",
+				Note: "C20: a subscriber that keeps reading did not receive every event published for its identifier, in order"})
+		}
+	}
+	c.res.Rule = "3..6 goroutines x 40 random subscribe/unsubscribe/publish operations over 3 identifiers with randomised pauses, every subscriber read by its own goroutine; the order of critical sections recorded by the verif router hook is replayed through the Lean model and every subscriber's received sequence compared; one router is used only when it is more than ten seconds old, by a subscriber that falls behind by one buffer and then keeps reading; a class is (workers, subscription count bucket)"
 	return nil
 }
